@@ -10,8 +10,8 @@ import (
 	"path/filepath"
 	"sort"
 	"strings"
-	"time"
 	"sync"
+	"time"
 
 	"verifharness/c20ops"
 	"verifharness/engine"
@@ -454,6 +454,10 @@ func c20HangHandler(sub *engine.Sub, caseJSON string, limit time.Duration) {
 	if sub.Name == "sequential-state-graph" || sub.Name == "race-detector-pairs" {
 		fmt.Fprintf(os.Stderr, "harness error: case %s of sub-check %s did not finish within %s (the code under test or the harness hangs)\n", caseJSON, sub.Name, limit)
 		os.Exit(2)
+	}
+	if confirmed, _ := engine.ConfirmHang("C20", sub, caseJSON, limit); !confirmed {
+		fmt.Fprintf(os.Stderr, "note: case %s of sub-check %s took longer than %s but came back (slow run, not a hang)\n", caseJSON, sub.Name, limit)
+		return
 	}
 	dir := filepath.Join(engine.OutDir(), "replays", "C20")
 	os.MkdirAll(dir, 0o755)
